@@ -168,7 +168,7 @@ func C11(p *load.Prog, r *report.Report) {
 	}
 	if out.X != nil && len(problems) == 0 {
 		want := specIsoPoint(in.X, in.Y)
-		r.Check(absint.EqualGuarded(out.X, want.X) && absint.EqualGuarded(out.Y, want.Y) && out.Z.Equal(want.Z), "C11.iso", "IsogenySecp256k13iso(x',y')", isoPos, "(x_num/x_den, y'·y_num/y_den, 1) with the 13 constants of RFC 9380 E.1; identity iff a denominator is zero", "the result differs from the 3-isogeny map of RFC 9380 E.1 (a wrong constant, a dropped denominator test, or a wrong exceptional value)")
+		r.Check(absint.EqualGuarded(out.X, want.X) && absint.EqualGuarded(out.Y, want.Y) && absint.EqualGuarded(out.Z, want.Z), "C11.iso", "IsogenySecp256k13iso(x',y')", isoPos, "(x_num/x_den, y'·y_num/y_den, 1) with the 13 constants of RFC 9380 E.1; identity iff a denominator is zero", "the result differs from the 3-isogeny map of RFC 9380 E.1 (a wrong constant, a dropped denominator test, or a wrong exceptional value)")
 	}
 	// z of the input must not matter (SSWU hands over z = 1, the affine sum leaves z untouched)
 	in2 := pt{in.X, in.Y, absint.FieldSym(FP, "z'")}
